@@ -12,6 +12,7 @@ from ..engine import site_str
 from ..ir import AnalysisBroken, walk, strip, sym_paths
 from .common import insts, paths_of
 from .C12 import _expr_txt, _FN
+from . import C03 as C03x
 
 TEXT = {
     "C06.task-fields": "every field PlanT::append stores in a task (origin, destination, type, payload) is read by FullControlT::updatePlan, and the request it "
@@ -27,6 +28,9 @@ TEXT = {
                       "deepPostReact return control._taskStatus, one value shared by everything that runs inside a region scope (cleared only when the scope "
                       "is left), so on every path it is cleared before the state's callbacks run and not after them - otherwise what a leaf sub-state "
                       "reported is read again as the status of the head that runs after it (postUpdate, postReact, bottom-up react) or of an orthogonal sibling",
+    "C06.fresh-read": "a scalar copied out of the plan data (planExists, task bounds, success / failure marks, region statuses) into a local is not used after a "
+                      "call that may change that very field - a library function whose transitive effects write it, or anything that reaches a user callback "
+                      "holding a Plan/Full/EventControl (which may attach, edit or clear plans and report success or failure): the copy would be stale",
     "C06.marks": "S_::deepExit calls planData.clearTaskStatus(STATE_ID) after the user's exit; clearTaskStatus clears both the success and the failure bit of the "
                  "state; clearStatuses clears successes, failures, head and sub statuses; A_::planSucceeded/planFailed defaults call control.succeed()/fail(); "
                  "TaskStatus::Result is ordered NONE < SUCCESS < FAILURE and | / |= take the maximum",
@@ -35,7 +39,7 @@ TEXT = {
                     "region), under an origin scope naming the region head",
     "C06.siblings": "the payload and void copies of updatePlan and of the PlanDataT members agree statement for statement modulo the payload arm",
 }
-MIN_INSTANCES = {"C06.defaults": 2, "C06.task-fields": 1, "C06.exec-guards": 1, "C06.routing": 3, "C06.status-accumulators": 8, "C06.own-status": 6, "C06.marks": 5, "C06.siblings": 3}
+MIN_INSTANCES = {"C06.defaults": 2, "C06.task-fields": 1, "C06.exec-guards": 1, "C06.routing": 3, "C06.status-accumulators": 8, "C06.own-status": 6, "C06.fresh-read": 2, "C06.marks": 5, "C06.siblings": 3}
 
 
 def declare(ctx):
@@ -56,6 +60,10 @@ def check(ctx, F):
     check_routing(ctx, F)
     check_accumulators(ctx, F)
     check_own_status(ctx, F)
+    check_fresh_read(ctx, F)
+    from . import C01
+    C01.check_ortho_all(C03x._Alias(ctx, {"C01.ortho-all": "C06.routing"}), F, only=("wideUpdatePlans", "widePreUpdate", "wideUpdate", "widePostUpdate",
+                                                                                   "widePreReact", "wideReact", "widePostReact"))
     check_marks(ctx, F)
     check_siblings(ctx, F)
     check_defaults(ctx, F)
@@ -424,6 +432,131 @@ def check_accumulators(ctx, F):
     for fid, b in F.bodies.items():
         if b["inst"] and b.get("cls") in ("PreReactWrapperT", "ReactWrapperT", "PostReactWrapperT") and b["name"] == "execute":
             scan(fid, b, "%s<%s>::execute/%d" % (b["cls"], F.spec(b["tid"]), len(b.get("params", []))))
+
+
+PLAN_FIELDS = ("tasks", "taskLinks", "taskPayloads", "payloadExists", "taskBounds", "planExists", "tasksSuccesses", "tasksFailures", "headStatuses", "subStatuses")
+USER_WRITES = {"tasks", "taskLinks", "taskPayloads", "payloadExists", "taskBounds", "planExists", "tasksSuccesses", "tasksFailures"}   # through plan() / succeed() / fail()
+
+
+def _plan_writers(F):
+    """fid -> set of plan fields the function may change (transitively); user callbacks holding a Plan/Full/EventControl may change USER_WRITES"""
+    from ..effects import Effects
+    from .. import facts as factsmod
+    lib = (factsmod.REPO.rstrip("/") + "/", "/usr/")
+    w = {}
+
+    CB = {"entryGuard", "enter", "reenter", "preUpdate", "update", "postUpdate", "preReact", "react", "postReact", "exitGuard", "exit", "planSucceeded", "planFailed"}
+    CB |= {"wide" + n[0].upper() + n[1:] for n in CB}
+
+    def user_cb(f):
+        """a state's callback (whatever the witness states happen to override: the user's type may define any of them) or other user code,
+        holding a control through which plans can be edited and results reported"""
+        fn = F.fn(f)
+        def plan_control(p):
+            if re.search(r"\b(Plan|Full|Event)Control", p.get("t") or ""):
+                return True
+            return "tid" in p and (F.type(p["tid"]).get("name") or "") in ("PlanControlT", "FullControlBaseT", "FullControlT", "EventControlT")
+        if not any(plan_control(p) for p in fn.get("params", [])):
+            return False
+        if fn["name"] in CB and fn.get("cls") in (None, "A_", "B_") or (fn["name"] in CB and not (fn.get("loc") or "").startswith(lib)):
+            return True
+        loc = fn.get("loc") or ""
+        return bool(loc) and not loc.startswith(lib) and F.body(f) is None
+
+    PURE = {"get", "operator[]", "cbits", "count", "empty", "operator bool", "first", "next", "begin", "end", "payload", "operator*", "operator->"}
+
+    def fields_of(e):
+        return {m.get("n") for m in walk(e or {}) if m.get("k") == "mem" and m.get("n") in PLAN_FIELDS}
+
+    for fid, b in F.bodies.items():
+        if not b["inst"]:
+            continue
+        d = set()
+        for x in walk(b.get("body") or {}):
+            k = x.get("k")
+            if k == "asg":
+                d |= fields_of(x.get("lhs"))
+            elif k == "un" and x.get("op") in ("++", "--"):
+                d |= fields_of(x.get("e"))
+            elif k == "call" and "f" in x and x.get("obj") is not None:
+                cf = F.fn(x["f"])
+                if not cf.get("const") and cf["name"] not in PURE:
+                    d |= fields_of(x.get("obj"))
+            if k == "call" and "f" in x and x.get("op") in ("|=", "&=", "^=", "=") and x.get("a"):
+                d |= fields_of(x["a"][0])
+        w[fid] = d
+    changed = True
+    while changed:
+        changed = False
+        for fid, b in F.bodies.items():
+            if not b["inst"]:
+                continue
+            cur = w[fid]
+            for x in walk(b.get("body") or {}):
+                if x.get("k") in ("call", "ctor") and "f" in x:
+                    c = x["f"]
+                    add = USER_WRITES if user_cb(c) else w.get(c)
+                    if add and not add <= cur:
+                        cur |= add
+                        changed = True
+    return w, user_cb
+
+
+def check_fresh_read(ctx, F):
+    w, user_cb = _plan_writers(F)
+    for fid, b in F.bodies.items():
+        if not b["inst"] or b.get("cls") not in ("C_", "O_", "S_", "CS_", "OS_", "FullControlT", "FullControlBaseT", "PlanControlT", "R_", "RV_", "PlanT", "PlanDataT"):
+            continue
+        # locals that copy a scalar out of a plan field
+        cands = {}
+        for x in walk(b.get("body") or {}):
+            if x.get("k") == "decl":
+                for v in x.get("vars", []):
+                    if v.get("ref") or v.get("ptr") or not v.get("init"):
+                        continue
+                    if v.get("ty") is None and not re.match(r"^(const )?(bool|hfsm2::(Short|Long|Prong|StateID|RegionID|TaskStatus)\b)", v.get("t") or ""):
+                        continue
+                    fields = {m.get("n") for m in walk(v["init"]) if m.get("k") == "mem" and m.get("n") in PLAN_FIELDS}
+                    # a value the init *computes* through calls that change the field themselves is not a copy of it
+                    if fields:
+                        cands[v["n"]] = fields
+        if not cands:
+            continue
+        site = "%s::%s" % (b["cls"], b["name"])
+        bad = None
+        try:
+            pp = paths_of(ctx, F, fid)
+        except AnalysisBroken as e:
+            raise AnalysisBroken("%s (locals %s): %s" % (site, sorted(cands), e))
+        for p in pp:
+            live = {}         # local -> fields it copies, once declared on this path
+            stale = {}        # local -> (callee, field)
+            for ev in p:
+                node = ev[1] if len(ev) > 1 and isinstance(ev[1], dict) else None
+                if node is not None and ev[0] != "decl":
+                    for y in walk(node):
+                        if y.get("k") == "var" and y.get("d") == "local" and y.get("n") in stale:
+                            bad = (y["n"],) + stale[y["n"]]
+                if ev[0] == "decl":
+                    for v in (node or {}).get("vars", [node] if node else []):
+                        if isinstance(v, dict) and v.get("n") in cands:
+                            live[v["n"]] = cands[v["n"]]
+                            stale.pop(v["n"], None)
+                    if node is not None and node.get("n") in cands:
+                        live[node["n"]] = cands[node["n"]]
+                        stale.pop(node["n"], None)
+                elif ev[0] == "call" and ev[2] is not None:
+                    c = ev[2]
+                    ww = USER_WRITES if user_cb(c) else w.get(c, set())
+                    for n, fs in live.items():
+                        hit = fs & (ww or set())
+                        if hit and n not in stale:
+                            stale[n] = (F.fn(c)["name"], sorted(hit)[0])
+        ctx.instance("C06.fresh-read", site, {"function": site, "loc": F.floc(fid), "locals": sorted(cands)})
+        if bad:
+            ctx.violation("C06.fresh-read", site + "/" + bad[0], "%s (%s)" % (site, F.floc(fid)),
+                          "local `%s` copies planData.%s and is used after the call to %s(), which may change that field (directly or through a user callback "
+                          "that edits plans): the decision is taken on a stale value" % (bad[0], bad[2], bad[1]), {})
 
 
 STATUS_MEMBERS = {"deepPreUpdate": ("widePreUpdate", "preUpdate"), "deepUpdate": ("wideUpdate", "update"), "deepPostUpdate": ("postUpdate", "widePostUpdate"),
